@@ -249,7 +249,7 @@ def mk(r):
     if k == "Compressed":
         return C.Compressed(mk(a[0]), a[1], a[2] if len(a) > 2 else None)
     if k == "Pointer":
-        return C.Pointer(mkexpr(a[0]), mk(a[1]))
+        return C.Pointer(mkexpr(a[0]), mk(a[1])) if len(a) < 3 else C.Pointer(mkexpr(a[0]), mk(a[1]), stream=mkexpr(a[2]))
     if k == "Peek":
         return C.Peek(mk(a[0]))
     if k == "Seek":
